@@ -95,6 +95,10 @@ MC_WIDE1 = dict(MaxDepth=1, MatcherKinds=S("none", "eq", "neq", "empty"), Matche
                 AggOps=S(), AggLabelSets=S(), ArithOps=S("+", "*"), CmpOps=S("==", ">"), SetOps=S("and", "or", "unless"),
                 MatchSets=S(S(), S("a"), S("b"), S("a", "b")), GroupIncs=S(S(), S("b"), S("c")),
                 DBSeries=1, DBA=S("x", "y"), DBB=S("x"), DBC=S("x"), DBVals=S(1, 2))
+# exhaustive: absent() / aggregations over selectors incl. the empty matcher, joined with * / and / unless (depth 2)
+MC_ABSENT = dict(MaxDepth=2, MaxBinNest=1, MatcherKinds=S("none", "eq", "empty"), MatcherKindsB=S("none"), Leaves=S("sel"),
+                 UnFns=S("absent"), AggOps=S("sum"), AggLabelSets=S(S("a")), ArithOps=S("*"), CmpOps=S(), SetOps=S("and", "unless"),
+                 MatchSets=S(S("a")), GroupIncs=S(), DBSeries=1, DBA=S("x", "y"), DBB=S("x"), DBC=S(), DBVals=S(1))
 # exhaustive: two nested aggregations on either side of a plain arithmetic join (depth 3)
 MC_NEST = dict(MaxDepth=3, MaxBinNest=1, MatcherKinds=S("none"), MatcherKindsB=S("none", "eq"), Leaves=S("sel"), UnFns=S(),
                AggOps=S("sum"), AggLabelSets=S(S("a"), S("a", "b")), ArithOps=S("*"), CmpOps=S(), SetOps=S(), MatchSets=S(),
@@ -196,12 +200,12 @@ def tiers(thorough):
                       DBC=S(), DBVals=S(1))
         return [("join", MC_JOIN, 6000), ("static", MC_STATIC, 3000), ("unary", dict(MC_UNARY, MaxDepth=2, DBVals=S(1), DBC=S()), 6000),
                 ("wide1", t_wide, 6000), ("nest", MC_NEST, 2000), ("nestbin", MC_NESTBIN, 2000),
-                ("cond", dict(MC_COND, MaxStack=3), 3000)], 250, 15000
+                ("cond", dict(MC_COND, MaxStack=3), 3000), ("absent", MC_ABSENT, 2000)], 250, 15000
     q_join = dict(MC_JOIN, MatcherKinds=S("none", "eq"), AggLabelSets=S(S("a")))
     q_wide = dict(MC_WIDE1, MatcherKinds=S("none", "eq", "empty", "reopt"), MatcherKindsB=S("none", "empty"), CmpOps=S(">="), ArithOps=S("*"),
                   MatchSets=S(S(), S("a")), GroupIncs=S(S(), S("b")), DBC=S(), DBVals=S(1))
     return [("join", q_join, 1200), ("static", MC_STATIC, 1000), ("unary", dict(MC_UNARY, DBVals=S(1)), 1500), ("wide1", q_wide, 2000),
-            ("nest", MC_NEST, 700), ("nestbin", MC_NESTBIN, 700), ("cond", MC_COND, 900)], 25, 1500
+            ("nest", MC_NEST, 700), ("nestbin", MC_NESTBIN, 700), ("cond", MC_COND, 900), ("absent", MC_ABSENT, 700)], 25, 1500
 
 
 def skey(e, top=True):
